@@ -91,7 +91,13 @@ func inboundMappedKey(typ *schema.TypeStruct, stg schema.StructRepresentation_Ma
 			return field.Name()
 		}
 	}
-	return key // fallback to the same key
+	// The key is not the representation key of any field.
+	// If it is the type-level name of a field (which is then known under another key at this level),
+	// it must not be taken for that field: hand back something that names no field.
+	if typ.Field(key) != nil {
+		return ""
+	}
+	return key // fallback to the same key (it names no field, and will be reported as such)
 }
 
 func outboundMappedType(stg schema.UnionRepresentation_Keyed, key string) string {
@@ -111,7 +117,15 @@ func inboundMappedType(typ *schema.TypeUnion, stg schema.UnionRepresentation_Key
 		}
 	}
 	// println(key, "had no mapping")
-	return key // fallback to the same key
+	// The key is not the discriminant of any member.
+	// If it is the type-level name of a member (which is then known under another key at this level),
+	// it must not be taken for that member: hand back something that names no member.
+	for _, member := range typ.Members() {
+		if key == member.Name() {
+			return ""
+		}
+	}
+	return key // fallback to the same key (it names no member, and will be reported as such)
 }
 
 // asKinded can be called on a kinded union node to obtain a node
